@@ -348,7 +348,14 @@ Definition check_pool (c : pool_case) : result :=
              + bN (q_retries c) 16 + bN (q_has_ctx (q_reqs c)) 32)%N
    end, 0%N).
 
-(** *** group "lin" (thorough tier): concurrent callers
+(** *** groups "lin" (thorough tier: free-running goroutines) and "race" (quick tier:
+    deterministic forced overlap): concurrent callers
+
+    "race": operation A is parked at its clock reading, i.e. INSIDE the breaker's critical
+    section; operation B is issued meanwhile from a second goroutine and A is released once B
+    is queued on the breaker's mutex.  B was invoked after A had entered its critical section,
+    so - unless B managed to complete while A was parked, in which case the stamps overlap -
+    the stamps say "A, then B" and the search below has exactly one admissible order.
 
     Goroutines call AcquirePermission / RecordResult on one breaker while the virtual clock
     stands still; every call and return is stamped with one atomic counter.  The history is
@@ -357,7 +364,9 @@ Definition check_pool (c : pool_case) : result :=
     observed results and ends in the observed final (state, stateID).  [lin_search] is a plain
     fuelled DFS; corr runs it on the concrete model, prop on the contract automaton. *)
 Record lop := { l_call : Z; l_ret : Z; l_op : op; l_flag : bool; l_id : Z }.
-Record lin_case := { n_pol : policy; n_t0 : Z; n_ops : list lop; n_final : Z * Z }.
+(** [n_final] = (state, stateID, results in the window) after all operations; a negative
+    window total means "not observed" *)
+Record lin_case := { n_pol : policy; n_t0 : Z; n_ops : list lop; n_final : Z * Z * Z }.
 
 Definition lop_matches (x : lop) (ob : obs) : bool :=
   let '(b, _, i) := ob in
@@ -391,12 +400,21 @@ Fixpoint lin_search {S : Type} (step : op -> S -> obs * S) (fin : S -> bool)
 
 Definition lin_cb (c : lin_case) : bool :=
   lin_search (cb_step (n_pol c))
-             (fun s => (st_code (c_state s) =? fst (n_final c)) && (c_id s =? snd (n_final c)))
+             (fun s => let '(fs, fi, ft) := n_final c in
+                       (st_code (c_state s) =? fs) && (c_id s =? fi) &&
+                       ((ft <? 0) || (win_total (c_win s) =? ft)))
              (S (List.length (n_ops c))) (cb_new (n_pol c) (n_t0 c)) (n_ops c).
 
 Definition lin_sp (c : lin_case) : bool :=
   lin_search (sp_step (n_pol c))
-             (fun s => (st_code (s_state s) =? fst (n_final c)) && (s_id s =? snd (n_final c)))
+             (fun s => let '(fs, fi, ft) := n_final c in
+                       (st_code (s_state s) =? fs) && (s_id s =? fi) &&
+                       (* the count-based view does not depend on the clock: the window must hold
+                          exactly the last results recorded with the epoch's id *)
+                       match s_kind s with
+                       | KCount _ => (ft <? 0) || (Z.of_nat (List.length (view (s_kind s) 0 (s_log s))) =? ft)
+                       | KTime _ => true
+                       end)
              (S (List.length (n_ops c))) (sp_new (n_pol c) (n_t0 c)) (n_ops c).
 
 Definition is_acq_op (o : op) : bool := match o with OAcq _ => true | _ => false end.
